@@ -185,17 +185,20 @@ def run_frontend(case):
     cfg = Config(build_config(case))
     fe = case["frontend"]
     has_t = case["time"] is not None
+    # axis columns / variables under the default names, or under the user's own names given to the constructor
+    nm = case.get("axis_names") or {"time": "time", "z": "z", "lat": "lat", "lon": "lon"}
+    named = {} if not case.get("axis_names") else dict(nm)
     if fe == "pandas":
         d = {}
         if has_t:
-            d["time"] = _times(case)
+            d[nm["time"]] = _times(case)
         for ax in ("z", "lat", "lon"):
             if case[ax] is not None:
-                d[ax] = _vals(case[ax])
+                d[nm[ax]] = _vals(case[ax])
         for name, col in case["cols"]:
             d[name] = _vals(col)
         df = pd.DataFrame(d, index=case["index"])
-        return list(PandasStream(df).run(cfg))
+        return list(PandasStream(df, **named).run(cfg))
     if fe == "numpy":
         kw = {"inp": {name: _vals(col) for name, col in case["cols"]}}
         if has_t:
@@ -205,19 +208,20 @@ def run_frontend(case):
                 kw[ax] = _vals(case[ax])
         return list(NumpyStream(**kw).run(cfg))
     # xarray / netcdf: a Dataset with dimension "time"
-    dv = {name: (("time",), _vals(col)) for name, col in case["cols"]}
+    tn = nm["time"]
+    dv = {name: ((tn,), _vals(col)) for name, col in case["cols"]}
     for ax in ("z", "lat", "lon"):
         if case[ax] is not None:
-            dv[ax] = (("time",), _vals(case[ax]))
-    coords = {"time": _times(case)} if has_t else {}
+            dv[nm[ax]] = ((tn,), _vals(case[ax]))
+    coords = {tn: _times(case)} if has_t else {}
     if case.get("orphan"):
         # a variable on ANOTHER dimension (a profile next to the time series): no time / depth / position belongs to it
         dv[case["orphan"]["name"]] = (("odim",), _vals(case["orphan"]["vals"]))
     ds = xr.Dataset(dv, coords=coords)
     if fe == "xarray":
-        return list(XarrayStream(ds).run(cfg))
+        return list(XarrayStream(ds, **named).run(cfg))
     if fe == "netcdf":
-        return list(NetcdfStream(ds).run(cfg))
+        return list(NetcdfStream(ds, **named).run(cfg))
     raise ValueError(fe)
 
 
@@ -441,6 +445,9 @@ def gen_stream(tier, rng, frontends=("pandas", "numpy", "netcdf", "xarray"), fau
                           "cfg": cfg})
             if rng.random() < 0.4:
                 cases[-1]["wkeys"] = rng.choice(["es", "omit", "omit_es"])
+            if fe != "numpy" and rng.random() < 0.3:
+                # the user's own column / variable names for the axes, told to the constructor
+                cases[-1]["axis_names"] = {"time": "obs_t", "z": "depth_m", "lat": "y_deg", "lon": "x_deg"}
             if wforms and not faults and has_time and rng.random() < 0.35 \
                     and any(c["start"] is not None or c["end"] is not None for c in cfg):
                 cases[-1]["wform"] = rng.choice(WINDOW_FORMS[1:])       # the same instants, spelled differently
